@@ -410,6 +410,14 @@ func main() {
 					z[t] = 0
 				}
 				compare(c, i, "history-hints-zeroed", fmt.Sprintf("after %v: valid signature with the hint section zeroed", ms[mi]), k, k.ref.PK, msg, z, false)
+				// a verification under a related key (one bit of rho flipped) must not poison the next one
+				rb := int(i*37) % 256
+				pkr := k.pk
+				pkr[rb/8] ^= 1 << uint(rb%8)
+				libAccepts(c, i, msg, sig, &pkr, "history (pk with rho bit flipped)")
+				if ok, _ := libAccepts(c, i, msg, sig, &k.pk, "history (valid after related key)"); !ok {
+					c.Fail(i, "history:valid-signature-rejected-after-verification-under-related-key", map[string]any{"flipped_rho_bit": rb})
+				}
 				// same variable, other key
 				k2 := getKeys(dilscope.Seed((b+1)%3, c.Seed))
 				msg2, sig2, _ := validSig(k2, b+10)
